@@ -278,6 +278,17 @@ int FAST(memCmpRev)(const void* buf1, const void* buf2, size_t count)
 	return 0;
 }
 
+#ifdef BEE2_VERIF
+/* verification hook: the fill pattern of memWipe() depends on a hidden call
+   counter; a simulator that hosts many simulated process lifetimes in one OS
+   process restarts it (see /verif/DESIGN.md, H-reset) */
+static bool_t _wipe_restart;
+void memVerifReset()
+{
+	_wipe_restart = TRUE;
+}
+#endif
+
 void memWipe(void* buf, size_t count)
 {
 	static octet wipe_ctr = 0;
@@ -285,6 +296,10 @@ void memWipe(void* buf, size_t count)
 	size_t ctr = wipe_ctr;
 	size_t i = count;
 	ASSERT(memIsValid(buf, count));
+#ifdef BEE2_VERIF
+	if (_wipe_restart)
+		ctr = 0, _wipe_restart = FALSE;
+#endif
 	// вычисления, которые должны показаться полезными оптимизатору
 	while (i--)
 		*(p++) = (octet)ctr, ctr += 17 + ((size_t)p & 15);
